@@ -394,6 +394,40 @@ func execWD(toks []string) string {
 		mc.Close()
 		return "handshake-failed"
 	}
+	// chat=1: the watched peer keeps sending application answers (but answers DWRs as scripted);
+	// chat=2: another connection of the same client and state machine is busy meanwhile.
+	// Neither may change what the watchdog does on the watched connection.
+	if chat, _ := kvGet(toks, "chat"); chat == "1" || chat == "2" {
+		target := mc
+		if chat == "2" {
+			mc2 := newMemConn()
+			mc2.local = memAddr{"tcp", "10.1.2.9:3868"}
+			var always []string
+			for i := 0; i < 400; i++ {
+				always = append(always, "A")
+			}
+			ps2 := &peerScript{beh: []string{"S"}, dwrBeh: always}
+			mc2.writeHook = ps2.hook
+			if c2, err := cli.NewConn(mc2, "mem"); err == nil && c2 != nil {
+				target = mc2
+				defer mc2.Close()
+			}
+		}
+		stop := make(chan struct{})
+		defer close(stop)
+		go func() {
+			id := uint32(70000)
+			for {
+				select {
+				case <-stop:
+					return
+				case <-time.After(clientInterval / 4):
+					id++
+					target.deliver(simpleMsg(272, 0, 4, id, id, diam.NewAVP(268, 0x40, 0, datatype.Unsigned32(2001))))
+				}
+			}
+		}()
+	}
 	// wait until the script is used up or the client closes
 	want := len(flat)
 	deadline := time.Now().Add(time.Duration(want+4)*2*clientInterval + 2*time.Second)
@@ -553,7 +587,11 @@ func genSMClient(r *RNG, n int, op string, emit func(string)) {
 					break
 				}
 			}
-			emit(fmt.Sprintf("smclient wd r=%d beh=%s", R, strings.Join(cyc, "/")))
+			line := fmt.Sprintf("smclient wd r=%d beh=%s", R, strings.Join(cyc, "/"))
+			if r.Chance(30) {
+				line += fmt.Sprintf(" chat=%d", 1+r.Intn(2))
+			}
+			emit(line)
 		}
 	}
 }
